@@ -8,6 +8,7 @@ import (
 	"database/sql"
 	"database/sql/driver"
 	"math"
+	"reflect"
 	"time"
 
 	"github.com/kishyassin/goframe/dataframe"
@@ -280,7 +281,59 @@ func genSqlr(r *Rng) *Enc {
 	e.Strs(parseDates)
 
 	// ---- run ----
-	st := &dbState{failAt: -1, rs: &resultSet{names: names, types: types, rows: rows, errAt: errAt, errKind: r.Intn(5)}, queryErr: queryErr}
+	// SQLite-style transport in a quarter of the cases (chosen from the case's own shape, no PRNG draw): BOOLEAN values
+	// travel as int64 0/1 and whole REAL/NUMERIC values as int64, and the driver reports the Go type it transports.
+	// database/sql converts them back (convertAssign) into the type the declared name asks for, so the imported frame
+	// must be the one of the native transport, which is what the model is given.
+	var wire [][]driver.Value
+	var scanTypes []reflect.Type
+	if (errAt+1+nrows*7+ncols*3+handlerKind)%4 == 0 {
+		scanTypes = make([]reflect.Type, ncols)
+		cross := make([]bool, ncols)
+		for j := range types {
+			k := declKind(types[j])
+			switch k {
+			case "int":
+				scanTypes[j] = reflect.TypeOf(int64(0))
+			case "float":
+				scanTypes[j] = reflect.TypeOf(float64(0))
+			case "bool":
+				scanTypes[j] = reflect.TypeOf(false)
+			case "time":
+				scanTypes[j] = reflect.TypeOf(time.Time{})
+			default:
+				scanTypes[j] = reflect.TypeOf("")
+			}
+			if (k == "bool" || k == "float") && !inPD(names[j]) {
+				cross[j] = true
+				scanTypes[j] = reflect.TypeOf(int64(0))
+			}
+		}
+		wire = make([][]driver.Value, len(rows))
+		for i, row := range rows {
+			w := make([]driver.Value, len(row))
+			copy(w, row)
+			for j, v := range row {
+				if !cross[j] {
+					continue
+				}
+				switch x := v.(type) {
+				case bool:
+					if x {
+						w[j] = int64(1)
+					} else {
+						w[j] = int64(0)
+					}
+				case float64:
+					if x == math.Trunc(x) && math.Abs(x) < 1e15 {
+						w[j] = int64(x)
+					}
+				}
+			}
+			wire[i] = w
+		}
+	}
+	st := &dbState{failAt: -1, rs: &resultSet{names: names, types: types, rows: rows, errAt: errAt, errKind: r.Intn(5), wire: wire, scanTypes: scanTypes}, queryErr: queryErr}
 	db := openFake(st)
 	defer db.Close()
 	var res *dataframe.DataFrame
